@@ -345,23 +345,18 @@ impl Lexer {
         }
     }
 
+    // `start` and `current` are byte offsets into `source`,
+    // always on a character boundary
     fn peek_advance(&self) -> char {
-        if self.current + 1 >= self.source.len() {
-            return '\0';
-        }
-
-        self.source.chars().nth(self.current + 1).unwrap()
+        self.source[self.current..].chars().nth(1).unwrap_or('\0')
     }
     fn peek(&self) -> char {
-        if self.is_at_end() {
-            return '\0';
-        }
-        self.source.chars().nth(self.current).unwrap()
+        self.source[self.current..].chars().next().unwrap_or('\0')
     }
 
     fn advance(&mut self) -> char {
-        let c = self.source.chars().nth(self.current).unwrap();
-        self.current += 1;
+        let c = self.source[self.current..].chars().next().unwrap();
+        self.current += c.len_utf8();
 
         c
     }
@@ -373,7 +368,7 @@ impl Lexer {
 
         let mut i = 1;
         loop {
-            let next_char = self.source.chars().nth(self.current + i);
+            let next_char = self.source[self.current..].chars().nth(i);
 
             match next_char {
                 // if we're at the end, then return false
@@ -419,10 +414,10 @@ impl Lexer {
             return false;
         }
 
-        if self.source.chars().nth(self.current).unwrap() != ch {
+        if self.peek() != ch {
             false
         } else {
-            self.current += 1;
+            self.current += ch.len_utf8();
             true
         }
     }
